@@ -4,7 +4,7 @@
 (* of conflict-handler calls), oneshot (statement-kind switches), misc      *)
 (* (set-operation arity, CASE, RETURNING, DDL and table one-shots).         *)
 EXTENDS PT_Builder, Json
-CONSTANT Fam
+CONSTANTS Fam, MaxSeq
 
 Fld(s, c) == [k |-> "fld", src |-> s, n |-> c]
 Cmp(l, r) == [k |-> "bin", op |-> "=", l |-> l, r |-> r]
@@ -99,7 +99,7 @@ JoinNext == \/ stage = 0 /\ \E f \in Bases : prog' = <<[m |-> "from_", src |-> f
             \/ stage = 3 /\ \E i \in Items, c \in Crits : prog' = Append(prog, J(i, c)) /\ stage' = 4
 SeqNext(calls, max) == stage < max /\ \E c \in calls : prog' = Append(prog, c) /\ stage' = stage + 1
 MiscNext == stage = 0 /\ \E p \in Misc : prog' = p /\ stage' = 4
-Next == IF Fam = "join" THEN JoinNext ELSE IF Fam = "oc" THEN SeqNext(OcCalls, 3) ELSE IF Fam = "oneshot" THEN SeqNext(ShotCalls, 3) ELSE MiscNext
+Next == IF Fam = "join" THEN JoinNext ELSE IF Fam = "oc" THEN SeqNext(OcCalls, MaxSeq) ELSE IF Fam = "oneshot" THEN SeqNext(ShotCalls, MaxSeq) ELSE MiscNext
 Final == IF Fam \in {"join", "misc"} THEN stage = 4 ELSE (Fam = "oc" \/ stage > 0)
 Emit == ~Final \/ (IF Fam = "misc" THEN PrintT("P " \o ToJson([prog |-> prog, expect |-> MiscExpect(prog)]))
                    ELSE PrintT("P " \o ToJson([calls |-> prog])))
